@@ -309,3 +309,16 @@ CHECKS["C21"] = dict(
     design_ref="DESIGN.md 9/C21, 7.5",
     level_text="Exhaustive within bounds on the real free lists.",
 )
+
+CHECKS["C24"] = dict(
+    title="object pools",
+    units=[dict(name="pools", src="harness/pools.cpp"), dict(name="pools-hb", src="harness/pools.cpp", args=["--hb"])],
+    rule="every schedule with <= c preemptions of allocate/deallocate programs (all unordered pairs of 10 thread programs over {allocate, deallocate-newest, deallocate-oldest}, started with 0..3 objects already "
+         "held so that a pool of capacity 2 is used from untouched to past its capacity; 3-thread programs; a reduced program set through pool_allocator); outcome = the log of allocations and deallocations with object identities",
+    explanation="vyukov_queue_pool, lazy_vyukov_queue_pool and bounded_vyukov_queue_pool of capacity 2 (real VyukovMPMCCycleQueue underneath), directly and through pool_allocator<T, accessor>: "
+                "owner map - allocate() never returns an object that is allocated to somebody and not yet deallocated; a ledger of the pool's own allocator catches double frees, frees of preallocated objects and leaks after "
+                "the pool is destroyed; bad_alloc of the bounded pool is accepted only if at some moment of the call no object was certainly free; at the quiescent point, after everything was deallocated, the pool must serve "
+                "its capacity again without going to the heap (preallocated / bounded) or with exactly capacity - live objects new heap allocations (lazy). " + HB_NOTE,
+    design_ref="DESIGN.md 9/C24, 7.5",
+    level_text="Exhaustive within bounds on the real pools.",
+)
